@@ -1,5 +1,5 @@
 //@ unit dsyms
-//@ props C02
+//@ props C01 C02 C04 C05
 //@@ verus-args --rlimit 40
 //@@ depends partitions
 //@@ fnprops C04 lemma_done_stable canary_morphism_contract lemma_track_step lemma_img_rng lemma_conn_cong lemma_conn_homog lemma_conn_base lemma_pop lemma_skip lemma_unite_step lemma_queue_push lemma_ci_pop lemma_good_images lemma_ci_push lemma_ci_none lemma_fold_result lemma_walk_rng lemma_img_involution lemma_pull_back lemma_minimal_iff_only_trivial canary_is_minimal_contract canary_fold_contract canary_connected_is_satisfiable lemma_jchain_rng lemma_jchain_cons lemma_jchain_sym lemma_jchain_trans lemma_joined_equiv lemma_least lemma_jrep lemma_jchain_cong lemma_join_good lemma_walk_cong lemma_coarsest lemma_mi_step lemma_mi_back lemma_mi_commutes canary_minimal_image_contract canary_join_is_satisfiable
